@@ -39,10 +39,11 @@ const (
 	opUpdU // update the session's own row of u (second table)
 	opDDL  // create table if not exists x<s> (implicit commit)
 	opRead // select * from t; select * from u
+	opFail // select nope from t: resolves t, fails in analysis (its statement transaction is neither committed nor rolled back)
 	nKinds
 )
 
-var kindName = [...]string{"begin", "begin-ro", "commit", "rollback", "ac0", "ac1", "ins", "upd", "del", "updu", "ddl", "read"}
+var kindName = [...]string{"begin", "begin-ro", "commit", "rollback", "ac0", "ac1", "ins", "upd", "del", "updu", "ddl", "read", "fail"}
 
 type op struct {
 	Sess int // 0,1
@@ -90,6 +91,8 @@ func sqlOf(o op, stamp int) []string {
 		return []string{fmt.Sprintf("create table if not exists x%d (a int primary key)", k)}
 	case opRead:
 		return []string{"select * from t", "select * from u"}
+	case opFail:
+		return []string{"select nope from t"}
 	}
 	return nil
 }
@@ -408,7 +411,7 @@ func init() {
 		ID:    "C17",
 		Level: "model_checking",
 		Rule: "BFS over all statement-granularity interleavings of two sessions on one real engine (fresh engine per history; tables t(a pk,b), u(a pk,b); session i only writes the row with key i; every write stores a unique stamp = its step number). " +
-			"Alphabet per session (12): BEGIN, START TRANSACTION READ ONLY, COMMIT, ROLLBACK, SET autocommit=0, SET autocommit=1, insert/update/delete of its row in t, update of its row in u, a DDL (create table if not exists x<i>, implicit commit), read-all (select * from t, u). " +
+			"Alphabet per session (13): BEGIN, START TRANSACTION READ ONLY, COMMIT, ROLLBACK, SET autocommit=0, SET autocommit=1, insert/update/delete of its row in t, update of its row in u, a DDL (create table if not exists x<i>, implicit commit), read-all (select * from t, u), a statement that fails in analysis after resolving t (select nope from t: must fail and change nothing). " +
 			"Sessions are symmetric, so the first statement is by session 1. The last statement of each history is judged (error class, affected rows, read visibility) and afterwards — the engine is discarded per history — both sessions read both tables and a brand-new session reads the committed state and the table list. " +
 			"Oracle: model = list of committed versions + per-session overlay; a read by s must equal V (+) overlay(s) for some committed version V between the one current at s's transaction begin and the latest (snapshot-at-begin and read-latest-committed both accepted); a new session must see exactly the latest version. " +
 			"Histories in which two WRITING transactions that both commit overlap in time (BEGIN..COMMIT intervals) are classified at the second commit; from there only the weak clauses are checked (no never-committed value is ever visible to anyone but its writer, own pending writes stay visible, untouched rows stay). " +
